@@ -35,6 +35,9 @@ func init() {
 }
 
 func runC02(c *an.Ctx) {
+	// ---- R14: the hash-prefix verdict cache stores and hands out copies (a cached block page is not overwritten by pool reuse)
+	c.Floor("C02-R14", 4)
+	c07Caches(c, "C02-R14")
 	// ---- R13: the blocking mode's addresses survive the backend and file-cache conversions under their own family
 	c.Floor("C02-R13", 4)
 	c14CodecNames(c, "C02-R13", func(dst, src string) bool {
